@@ -251,6 +251,10 @@ impl MainEvent {
         let mut wire_signals = [(); TPC_ANODE_WIRES].map(|_| None);
         let mut pad_signals = [(); TPC_PAD_COLUMNS].map(|_| [(); TPC_PAD_ROWS].map(|_| None));
         let mut trigger_timestamp = None;
+        // A channel counts as seen even if nothing is left of its waveform
+        // after the delay; otherwise duplicate detection depends on bank order.
+        let mut wire_seen = [false; TPC_ANODE_WIRES];
+        let mut pad_seen = [[false; TPC_PAD_ROWS]; TPC_PAD_COLUMNS];
         // Need to group chunks by board and chip.
         let mut pwb_chunks_map: HashMap<_, Vec<_>> = HashMap::new();
 
@@ -279,7 +283,7 @@ impl MainEvent {
 
                     let wire_position = TpcWirePosition::try_new(run_number, board_id, channel_id)?;
                     let wire_index = usize::from(wire_position);
-                    if wire_signals[wire_index].is_some() {
+                    if std::mem::replace(&mut wire_seen[wire_index], true) {
                         return Err(TryMainEventFromDataBanksError::DuplicateWireBank {
                             bank_name,
                         });
@@ -339,7 +343,7 @@ impl MainEvent {
                         usize::from(pad_position.column),
                         usize::from(pad_position.row),
                     );
-                    if pad_signals[pad_index.0][pad_index.1].is_some() {
+                    if std::mem::replace(&mut pad_seen[pad_index.0][pad_index.1], true) {
                         return Err(TryMainEventFromDataBanksError::DuplicatePadSignal {
                             position: pad_position,
                         });
